@@ -20,7 +20,7 @@ RULE = ('Batches of generated coarse-grained systems: 1-4 chains given as separa
         'symmetric, one-directional, refer to absent residues/chains; backbone pairs planted just inside/outside each '
         'cut-off and at the separation limit; varied cut-offs, res_dist 0-4, epsilon, moltype / backbone / site names. '
         'Non-trivial = >= 2 chains with a cross-link, >= 1 expected contact and >= 1 contact rejected by each of two '
-        'different filters. distinct = distinct (system, contacts, parameters) hashes.')
+        'different filters. distinct = distinct (system, contacts, parameters) hashes. Also: lattice mode (coordinates and cut-offs multiples of 0.25 nm) with backbone pairs exactly at a cut-off, decided as excluded.')
 ASSUMPTIONS = ['(chain, input resid) identifies a residue uniquely within the system (as the contact map requires)',
                'contact lists contain no repeated entries',
                'backbone distances within 1e-9 (relative) of a cut-off are undecided',
